@@ -137,3 +137,19 @@ Fixpoint toks_eqb (a b:list tok) : bool :=
   match a, b with [], [] => true | x :: a', y :: b' => tok_eqb x y && toks_eqb a' b' | _, _ => false end.
 Definition otoks_eqb (a b:option (list tok)) : bool :=
   match a, b with Some x, Some y => toks_eqb x y | None, None => true | _, _ => false end.
+
+(* rdflib's parser flattens a sequence inside a sequence (and an alternative inside an alternative);
+   used only when comparing the model parser with rdflib's on arbitrary SPARQL path texts *)
+Fixpoint flat (p:path) : path :=
+  match p with
+  | PPred n => PPred n
+  | PInv q => PInv (flat q)
+  | PStar q => PStar (flat q)
+  | PPlus q => PPlus (flat q)
+  | POpt q => POpt (flat q)
+  | PSeq qs => PSeq ((fix go (qs:list path) : list path :=
+                        match qs with [] => [] | q :: r => (match flat q with PSeq l => l | x => [x] end) ++ go r end) qs)
+  | PAlt qs => PAlt ((fix go (qs:list path) : list path :=
+                        match qs with [] => [] | q :: r => (match flat q with PAlt l => l | x => [x] end) ++ go r end) qs)
+  end.
+Definition oflat (o:option path) : option path := match o with Some p => Some (flat p) | None => None end.
